@@ -38,7 +38,7 @@ def one(name):
         subprocess.call(["git","-C","/repo","worktree","remove","--force",wt],stdout=subprocess.DEVNULL,stderr=subprocess.DEVNULL)
         shutil.rmtree(wt, ignore_errors=True)
 names = sorted(n for n in os.listdir("/verif/seeded") if os.path.isdir(f"/verif/seeded/{n}") and (not flt or any(f in n for f in flt)))
-with ThreadPoolExecutor(6) as ex:
+with ThreadPoolExecutor(int(os.environ.get("JOBS","6"))) as ex:
     res = list(ex.map(one, names))
 subprocess.call(["git","-C","/repo","worktree","prune"])
 miss = 0
